@@ -18,8 +18,6 @@ def classify_add(ad, bd):
   ka, kb = kinds(ad), kinds(bd)
   if ka == "po2" and kb in ("bin", "relu11") and ("use_01" in bd or "bernoulli" in bd or kb == "relu11"):
     return "C17-adder-table-po2-plus-01-uses-fixed-adder"
-  if "po2" in (ka, kb):
-    return "C17-po2-to-qbits-top-value"
   if ka in ("tern", "bin", "relu11") or kb in ("tern", "bin", "relu11"):
     return "C17-adder-ternary-binary-operands-int-bits-count-sign"
   if "tanh" in (ka, kb):
@@ -168,7 +166,7 @@ def main():
         what = f"adder {ad} + {bd}: {det['values'][0]} + {det['values'][1]} not representable in the reported type"
       else:
         w_, x_ = ad.split(" x ")
-        fid = ("C17-po2-to-qbits-top-value" if ("po2" in ad) else None)
+        fid = None
         if fid is None and any(t in ad for t in ("ternary", "binary", "bernoulli", "quantized_relu(1,1,")):
           fid = "C17-accumulator-of-ternary-binary-products"
         if fid is None and "tanh" in ad:
